@@ -66,6 +66,14 @@ class MpReachNLRI(Attribute):
     ID = AttributeID.MP_REACH_NLRI
     FLAG = AttributeFlag.OPTIONAL + AttributeFlag.EXTENDED_LENGTH
 
+    @staticmethod
+    def parse_nexthop_address(addr_bin):
+        """next hop address as text; the address family follows from the length of the field,
+        not from the magnitude of the value (`::1` is an IPv6 address)
+        """
+        version = 4 if len(addr_bin) <= 4 else 6
+        return str(netaddr.IPAddress(int(binascii.b2a_hex(addr_bin), 16), version=version))
+
     @classmethod
     def parse(cls, value, afi_add_path=None):
         """parse
@@ -99,14 +107,14 @@ class MpReachNLRI(Attribute):
                 # parse nexthop
                 rd_bin = nexthop_bin[0:8]
                 nexthop_rd = IPv4MPLSVPN.parse_rd(rd_bin)
-                ipv4 = str(netaddr.IPAddress(int(binascii.b2a_hex(nexthop_bin[8:]), 16)))
+                ipv4 = cls.parse_nexthop_address(nexthop_bin[8:])
                 nexthop = {'rd': nexthop_rd, 'str': ipv4}
                 # parse nlri
                 nlri = IPv4MPLSVPN.parse(nlri_bin, addpath=add_path)
                 return dict(afi_safi=(afi, safi), nexthop=nexthop, nlri=nlri)
             elif safi == safn.SAFNUM_MPLS_LABEL:
                 if nexthop_bin:
-                    nexthop = str(netaddr.IPAddress(int(binascii.b2a_hex(nexthop_bin), 16)))
+                    nexthop = cls.parse_nexthop_address(nexthop_bin)
                 else:
                     nexthop = ''
                 nlri = IPv4LabeledUnicast.parse(nlri_bin, addpath=add_path)
@@ -151,11 +159,11 @@ class MpReachNLRI(Attribute):
                 # of Next Hop field and the peer the route is being advertised to.
                 nexthop_addrlen = 16
                 has_link_local = False
-                nexthop = str(netaddr.IPAddress(int(binascii.b2a_hex(nexthop_bin[:nexthop_addrlen]), 16)))
+                nexthop = cls.parse_nexthop_address(nexthop_bin[:nexthop_addrlen])
                 if len(nexthop_bin) == 2 * nexthop_addrlen:
                     # has link local address
                     has_link_local = True
-                    linklocal_nexthop = str(netaddr.IPAddress(int(binascii.b2a_hex(nexthop_bin[nexthop_addrlen:]), 16)))
+                    linklocal_nexthop = cls.parse_nexthop_address(nexthop_bin[nexthop_addrlen:])
                 nlri = IPv6Unicast.parse(nlri_bin, addpath=add_path)
                 if has_link_local:
                     return dict(afi_safi=(afi, safi), nexthop=nexthop, linklocal_nexthop=linklocal_nexthop, nlri=nlri)
@@ -166,14 +174,14 @@ class MpReachNLRI(Attribute):
                 # parse nexthop
                 rd_bin = nexthop_bin[0:8]
                 nexthop_rd = IPv6MPLSVPN.parse_rd(rd_bin)
-                ipv6 = str(netaddr.IPAddress(int(binascii.b2a_hex(nexthop_bin[8:]), 16)))
+                ipv6 = cls.parse_nexthop_address(nexthop_bin[8:])
                 nexthop = {'rd': nexthop_rd, 'str': ipv6}
                 # parse nlri
                 nlri = IPv6MPLSVPN.parse(nlri_bin, addpath=add_path)
                 return dict(afi_safi=(afi, safi), nexthop=nexthop, nlri=nlri)
             elif safi == safn.SAFNUM_MPLS_LABEL:
                 if nexthop_bin:
-                    nexthop = str(netaddr.IPAddress(int(binascii.b2a_hex(nexthop_bin), 16)))
+                    nexthop = cls.parse_nexthop_address(nexthop_bin)
                 else:
                     nexthop = ''
                 nlri = IPv6LabeledUnicast.parse(nlri_bin, addpath=add_path)
